@@ -170,8 +170,8 @@ def cmd_fulltests(a):
 
 
 def cmd_table(a):
-    print("| id | property | what it needs to manifest | demo (without / with patch) | caught by |")
-    print("|---|---|---|---|---|")
+    print("| id | property | what it needs to manifest | demo exit (without / with patch) | first run of the check | now caught by |")
+    print("|---|---|---|---|---|---|")
     for sid in sorted(os.listdir(SEEDED)):
         mp = os.path.join(SEEDED, sid, "meta.json")
         if not os.path.exists(mp):
@@ -179,8 +179,9 @@ def cmd_table(a):
         m = json.load(open(mp))
         r = m["ran"]
         caught = ", ".join(f"{k.replace('check_', '')} ({r[k]['oracle']})" for k in m.get("caught_by", [])) or "**missed**"
+        first = "missed -> check strengthened" if "check_quick_before_strengthening" in r else "caught"
         print(f"| {sid} | {m['property']} | {m['needs_to_manifest']} | {r['demo_without_patch']['exit']} / "
-              f"{r['demo_with_patch']['exit']} | {caught} |")
+              f"{r['demo_with_patch']['exit']} | {first} | {caught} |")
 
 
 def main():
